@@ -8,7 +8,7 @@ PROPERTY = 'C11'
 
 OPS = ['connect /', 'connect /a', 'connect refused', 'enter room', 'event', 'event+ack', 'binary header only',
        'binary header + 1 of 2', 'emit with callback (unanswered)', 'emit with callback (answered)', 'malformed',
-       'client DISCONNECT', 'server disconnect', 'server disconnect, transport lost during the handler']
+       'client DISCONNECT', 'server disconnect', 'server disconnect, transport lost during the handler', 'leave own room']
 
 
 class Boom(RuntimeError):
@@ -135,6 +135,9 @@ def h_inner(t, part):
             if w.s.manager.is_connected(live[cur], cur):
                 # room names are the application's: numeric ids and empty strings are names like any other
                 w.call(w.s.enter_room(live[cur], [0, '', 'room%d' % step][t.choice(3)], namespace=cur))
+        elif op == 'leave own room':
+            # the application takes the client out of the room named after its own session id
+            w.call(w.s.leave_room(live[cur], live[cur], namespace=cur))
         elif op == 'event':
             w.send('e0', w.P(packet.EVENT, data=['ev', 1], namespace=cur))
         elif op == 'event+ack':
